@@ -81,7 +81,11 @@ pub fn generate(seed: u64, tier: &str, sink: &mut Sink) {
     hosts.push("127.0.0.1".into());
     hosts.push("[::1]".into());
     hosts.push("A.B".into());
-    let entry_alpha: Vec<String> = ["a", "b", "ab", "a.b", "b.a", "", ".b", "B", "A.b", "0.1", "1", "::1]", "]"].iter().map(|s| s.to_string()).collect();
+    // absolute DNS names (trailing dot, kept by the url crate)
+    hosts.push("a.".into());
+    hosts.push("a.b.".into());
+    hosts.push("ab.a.".into());
+    let entry_alpha: Vec<String> = ["a", "b", "ab", "a.b", "b.a", "", ".b", "B", "A.b", "0.1", "1", "::1]", "]", "b.", "."].iter().map(|s| s.to_string()).collect();
     let mut lists: Vec<Vec<String>> = vec![vec![]];
     for e in &entry_alpha {
         lists.push(vec![e.clone()]);
@@ -119,9 +123,10 @@ pub fn generate(seed: u64, tier: &str, sink: &mut Sink) {
     crate::p_c09::generate_chains(seed ^ 0xC11C, if thorough { 3000 } else { 250 }, true, sink);
     // ---- from_env: assignments of the eight variables
     let proxy_vals: [Option<&str>; 7] = [None, Some(""), Some("  "), Some("http://env-h.test:8080"), Some("https://env-s.test"), Some("socks5://socks.test:1080"), Some("not a url")];
-    let np_vals: [Option<&str>; 8] = [None, Some(""), Some("*"), Some(" * "), Some("a.b,ab"), Some(" a.b , .ab ,, B "), Some("A.B"), Some(".b")];
-    let probes: Vec<Url> = ["http://a.b/", "https://a.b/", "http://x.a.b/", "http://xa.b/", "https://ab/", "http://zab/", "http://b/", "https://q.b/", "http://other/"].iter().map(|s| Url::parse(s).unwrap()).collect();
-    let total: u64 = 7u64.pow(6) * 64;
+    let np_vals: [Option<&str>; 10] = [None, Some(""), Some("*"), Some(" * "), Some("a.b,ab"), Some(" a.b , .ab ,, B "), Some("A.B"), Some(".b"), Some("localhost, "), Some("., a.b")];
+    let probes: Vec<Url> = ["http://a.b/", "https://a.b/", "http://x.a.b/", "http://xa.b/", "https://ab/", "http://zab/", "http://b/", "https://q.b/", "http://other/", "http://x.b./", "https://other./"].iter().map(|s| Url::parse(s).unwrap()).collect();
+    let npn = np_vals.len() as u64;
+    let total: u64 = 7u64.pow(6) * npn * npn;
     let n = if thorough { 400_000 } else { 12_000 };
     for i in 0..n {
         let code = if thorough && (i as u64) < total { i as u64 } else { rng.below(total) };
@@ -131,9 +136,9 @@ pub fn generate(seed: u64, tier: &str, sink: &mut Sink) {
             vals.push(proxy_vals[(c % 7) as usize]);
             c /= 7;
         }
-        vals.push(np_vals[(c % 8) as usize]);
-        c /= 8;
-        vals.push(np_vals[(c % 8) as usize]);
+        vals.push(np_vals[(c % npn) as usize]);
+        c /= npn;
+        vals.push(np_vals[(c % npn) as usize]);
         clear_env();
         for (k, v) in VARS.iter().zip(vals.iter()) {
             if let Some(v) = v {
